@@ -626,11 +626,16 @@ impl img::DiskImage for Imd {
             }
             // TODO: this works for now, but we should have the IMD object set up a pattern
             // that can be explicitly matched against the disk kind.
+            for trk in &ans.tracks {
+                if (trk.head & HEAD_MASK) as usize >= ans.heads {
+                    ans.heads = (trk.head & HEAD_MASK) as usize + 1;
+                }
+            }
             ans.kind = match (ans.byte_capacity(),ans.tracks[0].sectors) {
                 (l,8) if l==DSDD_77.byte_capacity() => img::DiskKind::D8(DSDD_77),
                 (l,8) if l==IBM_SSDD_8.byte_capacity() => img::DiskKind::D525(IBM_SSDD_8),
                 (l,9) if l==IBM_SSDD_9.byte_capacity() => img::DiskKind::D525(IBM_SSDD_9),
-                (l,8) if l==IBM_DSDD_8.byte_capacity() => img::DiskKind::D525(IBM_DSDD_8),
+                (l,8) if l==IBM_DSDD_8.byte_capacity() && ans.heads==2 => img::DiskKind::D525(IBM_DSDD_8),
                 (l,9) if l==IBM_DSDD_9.byte_capacity() => img::DiskKind::D525(IBM_DSDD_9),
                 (l,8) if l==IBM_SSQD.byte_capacity() => img::DiskKind::D525(IBM_SSQD),
                 (l,8) if l==IBM_DSQD.byte_capacity() => img::DiskKind::D525(IBM_DSQD),
@@ -650,11 +655,6 @@ impl img::DiskImage for Imd {
                 (1018368,26) => img::names::NABU_CPM_KIND,
                 _ => img::DiskKind::Unknown
             };
-            for trk in &ans.tracks {
-                if (trk.head & HEAD_MASK) as usize >= ans.heads {
-                    ans.heads = (trk.head & HEAD_MASK) as usize + 1;
-                }
-            }
             return Ok(ans);
         }
         return Err(DiskStructError::IllegalValue);
